@@ -216,9 +216,32 @@ func runC15(c *Ctx) {
 	// (4) netmc / codec pass the slice through
 	if w := c.MustFunc(pkgNetmc + ":(*minecraftConn).Write"); w != nil {
 		n := 0
-		for _, ci := range callsIn(w, func(nm string, cc *ssa.CallCommon) bool { return cc.IsInvoke() && cc.Method.Name() == "Write" }) {
+		isWrite := func(nm string, cc *ssa.CallCommon) bool { return cc.IsInvoke() && cc.Method.Name() == "Write" }
+		for _, ci := range callsIn(w, isWrite) {
 			n++
-			c.Check("write-passthrough", "wr.Write(payload)@minecraftConn.Write", ci, lastArg(ci.Common()) == ssa.Value(w.Params[1]), "the connection must hand the payload to the frame writer unchanged")
+			c.Check("write-passthrough", "wr.Write(payload)@minecraftConn.Write", ci, strip(lastArg(ci.Common())) == ssa.Value(w.Params[1]), "the connection must hand the payload to the frame writer unchanged")
+		}
+		// … or through an unexported helper of the connection (writePayload(payload, …)), its parameters
+		// read as this call's arguments
+		for _, hc := range callsIn(w, func(nm string, cc *ssa.CallCommon) bool {
+			g := moduleHelperWithBody(cc)
+			return g != nil && isUnexportedHelper(g)
+		}) {
+			g := moduleHelperWithBody(hc.Common())
+			res := make([]ssa.Value, len(hc.Common().Args))
+			for i, a := range hc.Common().Args {
+				res[i] = strip(a)
+			}
+			withBinding(g, res, func() {
+				for _, ci := range callsIn(g, isWrite) {
+					if !strings.HasSuffix(PathOf(ci.Common().Value), ".wr") {
+						continue
+					}
+					n++
+					c.Analysed(g)
+					c.Check("write-passthrough", "wr.Write(payload)@minecraftConn.Write", ci, strip(lastArg(ci.Common())) == ssa.Value(w.Params[1]), "the connection must hand the payload to the frame writer unchanged")
+				}
+			})
 		}
 		if n == 0 {
 			c.Undecided("write-passthrough", "minecraftConn.Write", "no writer call")
